@@ -13,6 +13,7 @@ mod c05s;
 mod c10s;
 mod c13s;
 mod c18s;
+mod c19s;
 mod realbin;
 #[path = "../../schedmc/src/explore.rs"]
 mod explore;
@@ -57,6 +58,7 @@ fn main() {
         "C10S" => c10s::run(&tier),
         "C13S" => c13s::run(&tier),
         "C18S" => c18s::run(&tier),
+        "C19S" => c19s::run(&tier),
         _ => {
             eprintln!("srvmc: unknown property {prop}");
             2
